@@ -72,7 +72,9 @@ def gen_cases(tier, seed):
             cases.append({"a": a, "b": b, "ctx": ctx, "emit": ctx == 0})
     # random larger texts with odd characters (CR, specials, non-ASCII, form feed)
     words = ["fn main() {", "}", "    let x = 1;", "<a & 'b' \"c\">", "x\r", "", "  ", "é中", "1 2 3", "\x0c",
-             "a &lt; b &amp;&amp; c", "&quot;q&quot; &apos; &gt;", "&amp;amp; &#60; &lt", "&& &mut x"]
+             "a &lt; b &amp;&amp; c", "&quot;q&quot; &apos; &gt;", "&amp;amp; &#60; &lt", "&& &mut x",
+             # each special character ALONE on a line (an escaping shortcut keyed on some of them misses the others)
+             "    a < b", "    a << b", "while i <= n {", "x > y", "p & q", "say \"hi", "it's", "<", ">", "&", "\"", "'", "<<<", "a<b<c"]
     nrand = 300 if tier == "quick" else 3000
     for _ in range(nrand):
         la = [rnd.choice(words) for _ in range(rnd.randint(0, 9))]
@@ -257,6 +259,12 @@ def oracle(case, r):
                     bad.append(("json_original", "json original %r vs text %r" % (blk["original"], orig)))
                 if rem > 0 and blk["original_end_line"] != lo + rem - 1:
                     bad.append(("json_oend", "original_end_line %r" % blk))
+                # a block without lines on one side still names a line there (inclusive range, 1-based): never an inverted
+                # range, never line 0
+                if rem == 0 and not (blk["original_end_line"] >= blk["original_begin_line"] >= 1):
+                    bad.append(("json_oend", "inverted / zero original range of an insert-only block %r" % blk))
+                if len(lines) == 0 and not (blk["expected_end_line"] >= blk["expected_begin_line"] >= 1):
+                    bad.append(("json_eend", "inverted / zero expected range of a delete-only block %r" % blk))
                 if len(lines) > 0 and blk["expected_end_line"] != blk["expected_begin_line"] + len(lines) - 1:
                     bad.append(("json_eend", "expected_end_line %r" % blk))
                 eb = blk["expected_begin_line"]
